@@ -12,6 +12,11 @@
 //!          | "for" v k strs.. nitems items.. | "inmac" m arg str nitems items.. | "ae" mode nitems items..
 //!          | "bad" kind | "macv" m w
 //!          | "ia" ign arg | "impa" arg v | "froma" arg name alias      (include / import / from-import of a *value*)
+//!          | "fx" hide name expected   (a pure expression that applies the filter / performs the test `name`;
+//!                                       hide: 0 printed, 1 in a branch that is not taken, 2 behind a short-circuit;
+//!                                       expected = what the expression prints when it is rendered on its own)
+//!          | "fuse"                    (`{{ fuse() }}`: prints nothing; fails at its k-th call while the harness has it armed)
+//! extends modes: s static name, d name from a variable, c `{% if c0/c1 %}`, q `{% if 3 is number/string %}` (decided by a test)
 //! arg     := kind k cand..    kind: str sc lit tup ctx slice rev lazy once rep map ctxmap pobj plain
 //! cand    := t (the string naming template t) | "!i" (42) | "!n" (none) | "!u" (undefined) | "!b" (true)
 //! fam     := name [ "~" L S P U B ]   (configuration, see `Cfgv`)
@@ -116,8 +121,67 @@ enum Item {
     ImportArg(Arg, usize),
     /// `{% from <arg> import name as alias %}`
     FromArg(Arg, usize, usize),
+    /// a pure expression using one filter (`f<k>`) or one test (`t<k>`) of the menus `FX_FILTERS` /
+    /// `FX_TESTS`; `hide` 0: `{{ expr }}`, 1: inside `{% if 1 > 2 %}`, 2: `{% if 0 and expr %}`.
+    /// The filter / test gets a per-template local id in source order whether or not it runs.
+    Fx(u8, String),
+    /// `{{ fuse() }}`
+    Fuse,
 }
 use Item::*;
+
+/// filters applied to `[4, 2, 9]` and tests probed with four values; every result is an integer,
+/// which all auto-escape modes print alike
+const FX_FILTERS: [&str; 6] = ["length", "first", "last", "sum", "min", "max"];
+const FX_TESTS: [&str; 7] = ["defined", "none", "string", "number", "sequence", "iterable", "undefined"];
+
+fn fx_expr(name: &str) -> String {
+    let k: usize = name[1..].parse().unwrap_or(0);
+    if name.starts_with('f') {
+        format!("[4, 2, 9]|{}", FX_FILTERS[k % FX_FILTERS.len()])
+    } else {
+        let t = FX_TESTS[k % FX_TESTS.len()];
+        format!("(1 if 3 is {t} else 0) + (2 if \"a\" is {t} else 0) + (4 if none is {t} else 0) + (8 if [1] is {t} else 0)")
+    }
+}
+
+/// what the expression prints when it is the only thing in the only template of a fresh
+/// environment (one activation, the filter / test has local id 0): the reference for every
+/// composed use
+fn fx_expected(name: &str) -> String {
+    use std::sync::Mutex;
+    static CACHE: Mutex<BTreeMap<String, String>> = Mutex::new(BTreeMap::new());
+    let mut c = CACHE.lock().unwrap();
+    if let Some(v) = c.get(name) {
+        return v.clone();
+    }
+    let env = Environment::new();
+    let v = match env.render_str(&format!("{{{{ {} }}}}", fx_expr(name)), ()) {
+        Ok(s) if !s.is_empty() && !s.contains(char::is_whitespace) => s,
+        Ok(_) => "?".to_string(),
+        Err(e) => format!("!{:?}", e.kind()),
+    };
+    c.insert(name.to_string(), v.clone());
+    v
+}
+
+// the fuse: `{{ fuse() }}` prints nothing; while armed (FUSE_AT = k > 0) its k-th call fails
+static FUSE_AT: std::sync::atomic::AtomicUsize = std::sync::atomic::AtomicUsize::new(0);
+static FUSE_CALLS: std::sync::atomic::AtomicUsize = std::sync::atomic::AtomicUsize::new(0);
+
+fn fuse_arm(k: usize) {
+    FUSE_CALLS.store(0, std::sync::atomic::Ordering::SeqCst);
+    FUSE_AT.store(k, std::sync::atomic::Ordering::SeqCst);
+}
+
+fn fuse() -> Result<Value, Error> {
+    use std::sync::atomic::Ordering::SeqCst;
+    let at = FUSE_AT.load(SeqCst);
+    if at != 0 && FUSE_CALLS.fetch_add(1, SeqCst) + 1 == at {
+        return Err(Error::new(minijinja::ErrorKind::InvalidOperation, "the fuse has blown"));
+    }
+    Ok(Value::from_safe_string(String::new()))
+}
 
 #[derive(Clone, Debug)]
 struct Tmpl {
@@ -268,6 +332,13 @@ fn ser_item(it: &Item, out: &mut Vec<String>) {
             out.push(n.to_string());
             out.push(a.to_string());
         }
+        Fx(hide, name) => {
+            out.push("fx".into());
+            out.push(hide.to_string());
+            out.push(name.clone());
+            out.push(fx_expected(name));
+        }
+        Fuse => out.push("fuse".into()),
     }
 }
 
@@ -367,6 +438,16 @@ impl<'a> Toks<'a> {
                 let arg = self.arg()?;
                 FromArg(arg, self.num()?, self.num()?)
             }
+            "fx" => {
+                let hide = self.num()? as u8;
+                let name = self.next()?.to_string();
+                if !(name.starts_with('f') || name.starts_with('t')) || name[1..].parse::<usize>().is_err() {
+                    return Err("fx name expected".into());
+                }
+                let _expected = self.next()?;
+                Fx(hide, name)
+            }
+            "fuse" => Fuse,
             other => return Err(format!("bad item tag {other}")),
         })
     }
@@ -544,6 +625,20 @@ fn print_items(pr: &Pr, t: &Tmpl, items: &[Item], used: &mut Vec<usize>, out: &m
             ImportArg(arg, v) => out.push_str(&pr.blk(&format!("import {} as v{v}", arg_expr(pr, arg)))),
             FromArg(arg, n, a) => out.push_str(&pr.blk(&format!("from {} import v{n} as v{a}", arg_expr(pr, arg)))),
             Text(s) => out.push_str(s),
+            Fx(hide, name) => match hide {
+                0 => out.push_str(&pr.var(&fx_expr(name))),
+                1 => {
+                    out.push_str(&pr.blk("if 1 > 2"));
+                    out.push_str(&pr.var(&fx_expr(name)));
+                    out.push_str(&pr.blk("endif"));
+                }
+                _ => {
+                    out.push_str(&pr.blk(&format!("if 0 and ({})", fx_expr(name))));
+                    out.push_str("<never>");
+                    out.push_str(&pr.blk("endif"));
+                }
+            },
+            Fuse => out.push_str(&pr.var("fuse()")),
             CallBlock(n) => {
                 used.push(*n);
                 let body = t.blocks.get(n).expect("block body in table");
@@ -564,6 +659,12 @@ fn print_items(pr: &Pr, t: &Tmpl, items: &[Item], used: &mut Vec<usize>, out: &m
             Extends { exec, mode, t } => match mode {
                 's' => out.push_str(&pr.blk(&format!("extends \"{}\"", pr.rf(*t)))),
                 'd' => out.push_str(&pr.blk(&format!("extends dyn{t}"))),
+                'q' => {
+                    // decided by a test: `number` holds for 3, `string` does not
+                    out.push_str(&pr.blk(if *exec { "if 3 is number" } else { "if 3 is string" }));
+                    out.push_str(&pr.blk(&format!("extends \"{}\"", pr.rf(*t))));
+                    out.push_str(&pr.blk("endif"));
+                }
                 _ => {
                     out.push_str(&pr.blk(&format!("if c{}", *exec as u8)));
                     out.push_str(&pr.blk(&format!("extends \"{}\"", pr.rf(*t))));
@@ -833,6 +934,7 @@ fn make_env(
     args: &[Arg],
 ) -> Result<Environment<'static>, Error> {
     let mut env = Environment::new();
+    env.add_function("fuse", fuse);
     for a in args.iter().filter(|a| a.needs_global()) {
         env.add_global(a.global(), arg_value(pr, a));
     }
@@ -900,6 +1002,61 @@ struct Outcome {
     meta: String,
     rblock: String,
     fresh: String,
+    /// the recovery stream (cases with a fuse): `skip` | `same:<failures injected>` | `diff:…`
+    recov: String,
+}
+
+fn items_have_fuse(items: &[Item]) -> bool {
+    items.iter().any(|it| match it {
+        Fuse => true,
+        Loop(_, _, b) | InMacro(_, _, _, b) | AutoEsc(_, b) => items_have_fuse(b),
+        _ => false,
+    })
+}
+
+fn case_has_fuse(c: &Case) -> bool {
+    c.tmpls.iter().any(|t| items_have_fuse(&t.layout) || t.blocks.values().any(|b| items_have_fuse(b)))
+}
+
+/// The recovery stream: on ONE state left by `render_captured`, for every block name and for
+/// k = 1, 2, 3: render the block (reference), render it again with the fuse armed to fail at its
+/// k-th call, then — the failure is over, the state is still in use — render it a third time.
+/// The third result must be the reference: a failed render of a block must not change which
+/// definition the next render of that block (or of any other) resolves to.
+fn recovery_stream(env: &Environment<'static>, main: &str, pr: &Pr) -> String {
+    let tmpl = env.get_template(main).unwrap();
+    let mut captured = match tmpl.render_captured(context(pr)) {
+        Ok(c) => c,
+        Err(_) => return "skip".into(),
+    };
+    let mut injected = 0usize;
+    let names = ["b0", "b1", "b2"];
+    let reference: Vec<String> =
+        names.iter().map(|b| res_of(captured.with_state_mut(|state| state.render_block(b))).0).collect();
+    for n in 0..3usize {
+        for k in 1..=3usize {
+            fuse_arm(k);
+            let armed = captured.with_state_mut(|state| state.render_block(names[n]));
+            let blown = FUSE_CALLS.load(std::sync::atomic::Ordering::SeqCst) >= k;
+            fuse_arm(0);
+            if !blown {
+                // fewer than k calls of the fuse: nothing was injected, larger k neither
+                break;
+            }
+            injected += 1;
+            if armed.is_ok() {
+                return format!("diff:b{n}:k{k}:b{n}:the render in which the fuse failed reported success");
+            }
+            // the block that failed first, then every other block: all resolve as before
+            for m in (0..3usize).map(|d| (n + d) % 3) {
+                let again = res_of(captured.with_state_mut(|state| state.render_block(names[m]))).0;
+                if again != reference[m] {
+                    return format!("diff:b{n}:k{k}:b{m}:{again}|before the failure:{}", reference[m]);
+                }
+            }
+        }
+    }
+    format!("same:{}", injected.min(9))
 }
 
 /// Renders t0 and, with the same environment:
@@ -930,7 +1087,14 @@ fn run_case(c: &Case, variant: usize) -> Outcome {
     };
     let wname = if cfg.pathjoin { format!("d0/w.{wext}") } else { format!("w.{wext}") };
     sources.push((wname.clone(), wsrc, None));
-    let skip = |res: String, detail: String| Outcome { res, detail, meta: "skip".into(), rblock: "skip".into(), fresh: "skip".into() };
+    let skip = |res: String, detail: String| Outcome {
+        res,
+        detail,
+        meta: "skip".into(),
+        rblock: "skip".into(),
+        fresh: "skip".into(),
+        recov: "skip".into(),
+    };
     let args = case_args(c);
     if !maps_canonical(&pr, &args) {
         return skip("syntax:map-candidates-not-in-iteration-order".into(), "syntax".into());
@@ -949,7 +1113,7 @@ fn run_case(c: &Case, variant: usize) -> Outcome {
         if let Err(e) = env.get_template(&main) {
             // the main template itself cannot be loaded: every entry point reports that
             let r = format!("err:{}", kind_chain(&e));
-            return Outcome { res: r.clone(), detail: "load-error".into(), meta: "skip".into(), rblock: r.clone(), fresh: r };
+            return Outcome { res: r.clone(), detail: "load-error".into(), meta: "skip".into(), rblock: r.clone(), fresh: r, recov: "skip".into() };
         }
         let (res, detail) = res_of(env.get_template(&main).unwrap().render(context(&pr)));
         let bname = format!("b{}", cfg.blk);
@@ -982,7 +1146,8 @@ fn run_case(c: &Case, variant: usize) -> Outcome {
                 format!("diff:{wname}:{wres}")
             }
         };
-        Outcome { res, detail, meta, rblock, fresh }
+        let recov = if case_has_fuse(c) && !has_once { recovery_stream(&env, &main, &pr) } else { "skip".to_string() };
+        Outcome { res, detail, meta, rblock, fresh, recov }
     });
     match r {
         Ok(x) => x,
@@ -2289,6 +2454,206 @@ fn nested_autoescape_families(out: &mut Vec<Case>) {
     }
 }
 
+/// Per-activation caches across the parent switch (family `local-ids`): child and parent use
+/// DIFFERENT filters / tests at the same local ids, and the child's first use (local id 0) is hidden
+/// — in a branch that is not taken, behind a short-circuit, in the body of a macro (its own
+/// activation) or in a block (its own numbering) — so that the child's top-level activation fills
+/// slot 1.. but not slot 0.  Enumerated: {filters, tests} x hiding x 3 names on 4 positions x
+/// child's items before / behind the extends tag x extends mode (static, dynamic, conditional,
+/// decided by a test) x chains of 2 and 3.
+fn local_id_families(out: &mut Vec<Case>) {
+    for kind in ['f', 't'] {
+        let nm = |k: usize| format!("{kind}{k}");
+        for hide in 0..5usize {
+            for code in 0..81usize {
+                let (a, b, c, d) = (code % 3, (code / 3) % 3, (code / 9) % 3, code / 27);
+                if a == b || c == d {
+                    continue;
+                }
+                for before in [false, true] {
+                    for (mi, mode) in ['s', 'd', 'c', 'q'].into_iter().enumerate() {
+                        // the full product for the static tag, a diagonal for the other modes
+                        if mi > 0 && (code + hide + before as usize) % 4 != mi {
+                            continue;
+                        }
+                        let first: Vec<Item> = match hide {
+                            0 => vec![Fx(0, nm(a))],
+                            1 => vec![Fx(1, nm(a))],
+                            2 => vec![Fx(2, nm(a))],
+                            3 => vec![InMacro(9, 1, "a<1>".into(), vec![Fx(0, nm(a))])],
+                            _ => vec![CallBlock(1)],
+                        };
+                        let mut child: Vec<Item> = vec![];
+                        let uses = |v: &mut Vec<Item>| {
+                            v.extend(first.clone());
+                            v.push(Text("<c:".into()));
+                            v.push(Fx(0, nm(b)));
+                            v.push(Text(">".into()));
+                        };
+                        if before {
+                            uses(&mut child);
+                        }
+                        child.push(ext(mode, 1));
+                        if !before {
+                            uses(&mut child);
+                        }
+                        child.push(CallBlock(0));
+                        let mut t0 = simple(child, vec![(0, vec![tx("T0:b0".into()), Fx(0, nm(d)), Super])]);
+                        if hide == 4 {
+                            t0.blocks.insert(1, vec![Fx(0, nm(a))]);
+                        }
+                        // three levels: the middle template extends the root conditionally and
+                        // has uses of its own
+                        let three = code % 2 == 1;
+                        let parent_layout = |j: usize| {
+                            vec![
+                                Text(format!("<p{j}:")),
+                                Fx(0, nm(c)),
+                                Text(",".into()),
+                                Fx(0, nm(d)),
+                                Text(">".into()),
+                                CallBlock(0),
+                                Text("|".into()),
+                                Fx(0, nm(a)),
+                            ]
+                        };
+                        let mut tmpls = vec![t0];
+                        if three {
+                            let mut l = vec![Fx(1, nm(b)), Text("<m:".into()), Fx(0, nm(c)), Text(">".into())];
+                            l.push(Extends { exec: true, mode: if mode == 'q' { 'q' } else { 'c' }, t: 2 });
+                            l.push(Fx(0, nm(d)));
+                            l.push(CallBlock(0));
+                            tmpls.push(simple(l, vec![(0, vec![tx("T1:b0".into()), Fx(0, nm(c)), Super])]));
+                            tmpls[0].layout.iter_mut().for_each(|it| {
+                                if let Extends { t, .. } = it {
+                                    *t = 1;
+                                }
+                            });
+                        }
+                        let j = tmpls.len();
+                        tmpls.push(simple(parent_layout(j), vec![(0, vec![tx(format!("T{j}:b0")), Fx(0, nm(b))])]));
+                        out.push(Case { fam: "local-ids".into(), tmpls });
+                    }
+                }
+            }
+        }
+    }
+    // an extends that is decided by a test, taken and not taken, with the child's other test hidden
+    for exec in [true, false] {
+        for hide in 1..3u8 {
+            for k in 0..FX_TESTS.len() {
+                let t0 = simple(
+                    vec![Fx(hide, format!("t{k}")), Fx(0, format!("t{}", k + 1)), Extends { exec: true, mode: 's', t: 1 }, CallBlock(0)],
+                    vec![(0, vec![tx("T0:b0".into()), Super])],
+                );
+                let t1 = simple(
+                    vec![tx("T1:pre".into()), Extends { exec, mode: 'q', t: 2 }, tx("T1:post".into()), CallBlock(0), CallBlock(1)],
+                    vec![(0, vec![tx("T1:b0".into())]), (1, vec![tx("T1:b1".into())])],
+                );
+                let t2 = simple(
+                    vec![tx("T2:top".into()), CallBlock(0), CallBlock(1), tx("T2:end".into())],
+                    vec![(0, vec![tx("T2:b0".into())]), (1, vec![tx("T2:b1".into())])],
+                );
+                out.push(Case { fam: "local-ids-cond".into(), tmpls: vec![t0, t1, t2] });
+            }
+        }
+    }
+}
+
+/// Failure and recovery (family `recover`): chains of 2..3 templates whose block definitions
+/// reach one another through super() — emitted before / after the text, captured — with a fuse
+/// in the definition of level `at`, before or after that level's own super(); nested block b1
+/// with a fuse of its own.  The recovery stream of `run_case` makes each fuse fail in turn.
+fn recovery_families(out: &mut Vec<Case>) {
+    let sup = [Asg::SuperBefore, Asg::SuperAfter, Asg::SuperCaptured];
+    for len in 2..=3usize {
+        for code in 0..(if len == 2 { 3 } else { 9 }) {
+            for at in 0..len {
+                for pos in 0..3usize {
+                    for nest in [false, true] {
+                        let mut asg = vec![];
+                        for j in 0..len {
+                            let a = if j + 1 == len { Asg::Plain } else { sup[(code / (if j == 0 { 1 } else { 3 })) % 3] };
+                            asg.push([a, if nest { Asg::Plain } else { Asg::Absent }, if j % 2 == 0 { Asg::Plain } else { Asg::Absent }]);
+                        }
+                        let s = ChainSpec {
+                            len,
+                            asg,
+                            nest: vec![nest; len],
+                            modes: vec![('s', true); len],
+                            pre_block: vec![false; len],
+                        };
+                        let mut tmpls = build_chain(&s);
+                        let body = tmpls[at].blocks.get_mut(&0).unwrap();
+                        let p = match pos {
+                            0 => 0,
+                            1 => body.len() / 2,
+                            _ => body.len(),
+                        };
+                        body.insert(p, Fuse);
+                        if nest {
+                            if let Some(b1) = tmpls[len - 1].blocks.get_mut(&1) {
+                                b1.push(Fuse);
+                            }
+                        }
+                        out.push(Case { fam: "recover".into(), tmpls });
+                    }
+                }
+            }
+        }
+    }
+}
+
+/// sprinkles pure filter / test expressions (hidden or not) and fuses over a random chain: any
+/// template, layout or block body, bare or wrapped in a loop / macro call / autoescape block
+fn decorate(rng: &mut Rng, c: &mut Case, len: usize) {
+    let kind = if rng.chance(1, 2) { 'f' } else { 't' };
+    for j in 0..len {
+        let t = &mut c.tmpls[j];
+        let n = rng.below(4) as usize;
+        for _ in 0..n {
+            let hide = match rng.below(5) {
+                0 => 1,
+                1 => 2,
+                _ => 0,
+            };
+            let k = if kind == 'f' { 'f' } else if rng.chance(1, 8) { 'f' } else { 't' };
+            let mut items = vec![Fx(hide, format!("{k}{}", rng.below(4)))];
+            if rng.chance(1, 3) {
+                items.push(Fuse);
+            }
+            let items = match rng.below(8) {
+                0 => wrap(1, items),
+                1 => wrap(2, items),
+                2 => wrap(3, items),
+                _ => items,
+            };
+            let keys: Vec<usize> =
+                t.blocks.iter().filter(|(_, b)| !matches!(b.as_slice(), [Required])).map(|(k, _)| *k).collect();
+            if !keys.is_empty() && rng.chance(2, 5) {
+                let n = *rng.pick(&keys);
+                let body = t.blocks.get_mut(&n).unwrap();
+                let pos = rng.below(body.len() as u64 + 1) as usize;
+                insert_at(body, pos, items);
+            } else {
+                let pos = rng.below(t.layout.len() as u64 + 1) as usize;
+                insert_at(&mut t.layout, pos, items);
+            }
+        }
+        // an extends decided by a test instead of a variable
+        if rng.chance(1, 3) {
+            for it in t.layout.iter_mut() {
+                if let Extends { mode, .. } = it {
+                    if *mode == 'c' {
+                        *mode = 'q';
+                    }
+                }
+            }
+        }
+    }
+    c.fam = format!("{}+fx", c.fam);
+}
+
 /// maps yield their keys in sorted order: put the candidates of map arguments into the order in
 /// which the engine will iterate them (depends on the names the configuration gives the templates)
 fn canon_maps(pr: &Pr, items: &mut [Item]) {
@@ -2321,6 +2686,8 @@ fn cases(tier: &str) -> Vec<Case> {
     visibility_families(&mut out);
     super_included_families(&mut out);
     nested_autoescape_families(&mut out);
+    local_id_families(&mut out);
+    recovery_families(&mut out);
     error_families(&mut out);
     all_small(&mut out, thorough);
     let n_plain = if thorough { 50_000 } else { 2_500 };
@@ -2330,6 +2697,14 @@ fn cases(tier: &str) -> Vec<Case> {
     }
     for _ in 0..n_extra {
         out.push(random_chain(&mut rng, true));
+    }
+    // the same chains with pure filter / test expressions and fuses sprinkled over them
+    let n_fx = if thorough { 30_000 } else { 2_000 };
+    for k in 0..n_fx {
+        let mut c = random_chain(&mut rng, k % 2 == 1);
+        let len = c.fam.strip_prefix("chain").and_then(|s| s[..1].parse::<usize>().ok()).unwrap_or(1);
+        decorate(&mut rng, &mut c, len);
+        out.push(c);
     }
     // every case gets an environment configuration and an entry-point parameter (deterministic
     // in its position): loader-backed templates, custom syntax, path-join callback with
@@ -2369,7 +2744,7 @@ fn work(tier: &str, start: usize) {
     let first = start.min(cs.len());
     for (k, c) in cs[first..].iter().enumerate() {
         let o = run_case(c, first + k);
-        writeln!(out, "{}\t{}\t{}\t{}\t{}\t{}", ser_case(c), o.res, o.detail, o.meta, o.rblock, o.fresh).unwrap();
+        writeln!(out, "{}\t{}\t{}\t{}\t{}\t{}\t{}", ser_case(c), o.res, o.detail, o.meta, o.rblock, o.fresh, o.recov).unwrap();
         out.flush().unwrap();
     }
 }
@@ -2389,7 +2764,7 @@ fn supervise(tier: &str) {
         if hangs >= 3 {
             // the engine hangs again and again: every further hang would cost the full timeout
             while next < total {
-                writeln!(stdout, "{}\tskipped\tskipped-after-3-hangs\tskip\tskip\tskip", lines[next]).unwrap();
+                writeln!(stdout, "{}\tskipped\tskipped-after-3-hangs\tskip\tskip\tskip\tskip", lines[next]).unwrap();
                 next += 1;
             }
             break;
@@ -2426,7 +2801,7 @@ fn supervise(tier: &str) {
                     let _ = child.wait();
                     hangs += 1;
                     if next < total {
-                        writeln!(stdout, "{}\thang\thang\tskip\tskip\tskip", lines[next]).unwrap();
+                        writeln!(stdout, "{}\thang\thang\tskip\tskip\tskip\tskip", lines[next]).unwrap();
                         next += 1;
                     }
                     break;
@@ -2435,7 +2810,7 @@ fn supervise(tier: &str) {
                     let st = child.wait().ok();
                     if next < total {
                         let code = st.map(|s| format!("{s}")).unwrap_or_default().replace([' ', '\t'], "_");
-                        writeln!(stdout, "{}\tcrash:{}\tcrash\tskip\tskip\tskip", lines[next], code).unwrap();
+                        writeln!(stdout, "{}\tcrash:{}\tcrash\tskip\tskip\tskip\tskip", lines[next], code).unwrap();
                         next += 1;
                     }
                     break;
@@ -2451,7 +2826,7 @@ fn supervise(tier: &str) {
         if restarts > 200 {
             // the engine dies on (nearly) every case: report the rest as crashed and stop
             while next < total {
-                writeln!(stdout, "{}\tcrash:too-many-restarts\tcrash\tskip\tskip\tskip", lines[next]).unwrap();
+                writeln!(stdout, "{}\tcrash:too-many-restarts\tcrash\tskip\tskip\tskip\tskip", lines[next]).unwrap();
                 next += 1;
             }
         }
@@ -2498,7 +2873,7 @@ fn main() {
                     for variant in 0..12 {
                         let o = run_case(&c, variant);
                         if variant == 0 || o.meta.starts_with("diff") {
-                            println!("{}\t{}\t{}\t{}\t{}\t{}", ser_case(&c), o.res, o.detail, o.meta, o.rblock, o.fresh);
+                            println!("{}\t{}\t{}\t{}\t{}\t{}\t{}", ser_case(&c), o.res, o.detail, o.meta, o.rblock, o.fresh, o.recov);
                         }
                     }
                 }
